@@ -9,8 +9,9 @@ From Onet Require Export Base.Corr Overlay.Done.
 (* which repairs the code under /repo currently contains *)
 Definition code_fixed_F12 := true.
 Definition code_fixed_F13 := true.
+Definition code_fixed_F27 := true.
 Definition code_fixed_F28 := true.
-Definition code_fixes : fixes := mkFixes code_fixed_F12 code_fixed_F13 false code_fixed_F28.
+Definition code_fixes : fixes := mkFixes code_fixed_F12 code_fixed_F13 code_fixed_F27 code_fixed_F28.
 
 Record snap := mkSnap {
   sn_trees : list (nat * nat);        (* tree id, 0 absent / 1 requested / 2 present *)
@@ -117,25 +118,45 @@ Fixpoint others_unaffected (prev : option snap) (acts : list act) (l : list (opt
   | _, _ => true
   end.
 
-(* 3: a tree request made while the tree is in use or its removal is pending is answered *)
-Fixpoint grace_answers (prev : option snap) (acts : list act) (l : list (option snap))
+(* 3: the tree stays stored, and tree requests are answered, while an instance uses the tree and
+   during the grace period, i.e. from the Done that scheduled a removal until that removal is
+   no longer pending (cancelled by a new user, or carried out). [grace] = trees in their grace
+   period. A removal re-armed by a dropped late message (F28) on a tree that was released in
+   the meantime is not a grace period of the property. *)
+Definition present_in (o : snap) (i : nat) : bool :=
+  match lookup_nat (sn_trees o) i with Some 2 => true | _ => false end.
+
+Fixpoint grace_answers (prev : option snap) (grace : list nat) (acts : list act) (l : list (option snap))
          (ans : list (nat * bool)) : bool :=
   match acts, l with
   | a :: ra, o :: ro =>
       let next := match o with Some n => Some n | None => prev end in
+      (* trees whose removal is no longer pending leave the grace set; a Done that leaves a removal pending enters it *)
+      let g1 := match o with
+                | Some n => filter (fun i => lookup_b (sn_pending n) i) grace
+                | None => grace
+                end in
+      let g2 := match a, o with
+                | Done k, Some n => if lookup_b (sn_pending n) (tree_of k) then tree_of k :: g1 else g1
+                | _, _ => g1
+                end in
+      let stored := match o with
+                    | Some n => forallb (present_in n) g2
+                    | None => true
+                    end in
       match a with
       | ReqTree i =>
           match ans with
           | (_, answered) :: rest =>
               let must := match prev with
-                          | Some p => lookup_b (sn_pending p) i ||
+                          | Some p => existsb (Nat.eqb i) grace ||
                                       existsb (fun '(k, c) => (tree_of k =? i) && (c =? 1)) (sn_inst p)
                           | None => false
                           end in
-              (negb must || answered) && grace_answers next ra ro rest
+              (negb must || answered) && stored && grace_answers next g2 ra ro rest
           | [] => false
           end
-      | _ => grace_answers next ra ro ans
+      | _ => stored && grace_answers next g2 ra ro ans
       end
   | _, _ => true
   end.
@@ -176,7 +197,7 @@ Definition stale_ok (snaps : list (option snap)) (j : nat) : bool :=
 Definition check (c : case) : list nat :=
   clause 1 (forallb (fun o => match o with Some n => snap_tree_while_used n | None => true end) (snaps c)) ++
   clause 2 (pairs_ok done_final2 None (snaps c)) ++
-  clause 3 (grace_answers None (actions c) (snaps c) (answers_obs c)) ++
+  clause 3 (grace_answers None [] (actions c) (snaps c) (answers_obs c)) ++
   clause 4 (negb (drained c) || match last_snap (snaps c) None with Some n => released n | None => true end) ++
   clause 5 (others_unaffected None (actions c) (snaps c)) ++
   clause 6 (forallb (stale_ok (snaps c)) (stale c)).
